@@ -106,7 +106,7 @@ Definition to_rust_field_name (n : name) : astr :=
       match ident with
       | [] => la "_"
       | _ => let ident := if leading_minus n then la "negative_" ++ ident else ident in
-             if astr_eqb ident (la "self") then la "self_"
+             if astr_eqb ident (la "self") || astr_eqb ident (la "crate") || astr_eqb ident (la "super") then ident ++ la "_"
              else if amem ident forbidden_identifiers then la "r#" ++ ident
              else prefix_if_digit US ident
       end
@@ -115,7 +115,7 @@ Definition to_rust_field_name (n : name) : astr :=
       match ident with
       | [] => la "_"
       | _ => let ident := if leading_minus n then la "negative_" ++ ident else ident in
-             if astr_eqb ident (la "self") then la "self_"
+             if astr_eqb ident (la "self") || astr_eqb ident (la "crate") || astr_eqb ident (la "super") then ident ++ la "_"
              else if amem ident forbidden_identifiers then la "r#" ++ ident
              else prefix_if_digit US ident
       end
